@@ -37,7 +37,7 @@ ASSUMPTIONS = [
 SHARDS = {"quick": 8, "thorough": 16}
 TIMEOUT = {"quick": 600, "thorough": 3600}
 MIN_CASES = {"quick": 1500, "thorough": 30000}
-REQUIRED_COUNTERS = ["requests_compared", "transport_calls_counted", "encrypted_requests", "plaintext_phase_requests", "multi_frame_requests", "json_bodies_scanned", "reconnects_to_other_address", "hard_json_refused"]
+REQUIRED_COUNTERS = ["requests_compared", "transport_calls_counted", "encrypted_requests", "plaintext_phase_requests", "multi_frame_requests", "json_bodies_scanned", "reconnects_to_other_address", "hard_json_refused", "concurrent_bursts"]
 
 HOSTS = ["10.0.0.5", "192.168.100.200", "fd00::5", "2001:db8::1:2", "fe80::1234%eth0", "fe80::1%3"]
 JSON_CT = "application/hap+json"
@@ -135,6 +135,19 @@ class Session:
         return result
 
 
+def strict_eq(a, b) -> bool:
+    """JSON equality that keeps true / 1 / 1.0 apart (Python's == does not): the spelling on the wire is the caller's."""
+    if type(a) is not type(b):
+        return False
+    if isinstance(a, dict):
+        return list(a) == list(b) and all(strict_eq(a[k], b[k]) for k in a)
+    if isinstance(a, list):
+        return len(a) == len(b) and all(strict_eq(x, y) for x, y in zip(a, b))
+    if isinstance(a, float):
+        return a == b and str(a) == str(b)  # keeps 0.0 and -0.0 apart
+    return a == b
+
+
 def char_payload_order(body: bytes):
     """Library-built characteristic payloads, byte-level: {"characteristics":[{"aid":..,"iid":..,<value|ev|...>}]} - the id
     pair leads every item in the order aid, iid (the form of the HAP specification's examples, which iOS sends)."""
@@ -169,8 +182,8 @@ def expect_one(method, target=None, body=None, ct=None, json_obj=None, target_re
             p.append(f"content type {dict(r['headers']).get('Content-Type')!r}")
         if json_obj is not None:
             try:
-                if json.loads(r["body"].decode("utf-8")) != json_obj:
-                    p.append(f"JSON body {r['body'][:200]!r} != {json_obj!r}")
+                if not strict_eq(json.loads(r["body"].decode("utf-8")), json.loads(json.dumps(json_obj))):
+                    p.append(f"JSON body {r['body'][:200]!r} != {json_obj!r} (types included)")
             except Exception as ex:  # noqa: BLE001
                 p.append(f"body is not JSON: {ex}")
         if char_payload:
@@ -307,6 +320,27 @@ async def run_session(ctx, idx) -> None:
                 return [f"{len(reqs)} request(s) sent, result {res!r}"]
 
             await s.call("put_json-hard", c.put_json("/echo-json", hard), either)
+        # ---- several callers at once on one connection (one request in flight, the others queued behind it): each request
+        # reaches the accessory exactly once, complete and canonical, whatever was assembled while it waited ----
+        for k in range(ctx.pick(3, 12)):
+            n = rng.choice([3, 4, 6])
+            specs = []
+            for j in range(n):
+                target = f"/x/burst-{k}-{j}-" + "".join(rng.choice("abcdef0123456789") for _ in range(rng.randint(1, 40)))
+                body = rng.randbytes(rng.choice([1, 30, 700, 1500])) if j % 2 else None
+                specs.append((target, body))
+            n0 = len(s.conn.requests)
+            c0 = len(s.transport_calls())
+            await asyncio.gather(*[(c.put(t, b) if b is not None else c.get(t)) for t, b in specs], return_exceptions=True)
+            got = sorted(r["raw"] for r in s.conn.requests[n0:])
+            hv = refhttp.host_header_values(host)
+            want_sets = [sorted(refhttp.canonical_request("PUT" if b is not None else "GET", t, h, b, JSON_CT if b is not None else None) for t, b in specs) for h in hv]
+            ctx.case("burst", idx, k, sample={"api": "concurrent burst", "requests": n}, kind="burst")
+            ctx.count("concurrent_bursts")
+            if got not in want_sets:
+                ctx.violation("concurrent-requests-differ", f"{n} concurrent requests: the accessory received {len(got)} requests; first differing: {next((g[:90] for g in got if all(g not in w_ for w_ in want_sets)), None)!r}", {"label": idx, "call": "burst"})
+            elif len(s.transport_calls()) - c0 != n:
+                ctx.violation("request-not-single-transport-call", f"burst of {n} requests took {len(s.transport_calls()) - c0} transport calls", {"label": idx, "call": "burst"})
         # ---- pairing API ----
         p = w.pairing
         await s.call("list_accessories", p.list_accessories_and_characteristics(), expect_one("GET", "/accessories"))
@@ -372,6 +406,10 @@ async def run_session(ctx, idx) -> None:
 
 
 def gen_value(rng):
+    r = rng.random()
+    if r < 0.25:
+        # values that are equal in Python but are different JSON: whatever was written before, THIS spelling goes on the wire
+        return rng.choice([True, 1, 1.0, False, 0, 0.0, -0.0, 2, 2.0, "1", "true"])
     r = rng.random()
     if r < 0.2:
         return rng.choice([True, False])
